@@ -558,7 +558,7 @@ class C12(Prop):
     id = "C12"
     title = "Template rendering follows the documented grammar; bound values stay data"
     fixed_prefix = 1
-    quick_budget = 1200
+    quick_budget = 1000
     thorough_budget = 20000
     quick_deadline_s = 100
     thorough_deadline_s = 800
